@@ -192,12 +192,14 @@ def Server.runIPServer : List Row := [
   (4, "cookies = append(cookies, cookie)"),  -- Nts.freshCookies: ecEncode ec :: cs (first encrypted cookie first)
   (4, "addedCookie = true"),  -- Nts.serverReplyG: fresh.isEmpty = false
   (3, "if !addedCookie"),  -- Nts.serverReplyG: if fresh.isEmpty then .err .noCookies; ServerReply.serve folds it into ntsOk = false
-  (4, "continue"),  -- UNMODELLED: continue AFTER handleRequest recorded (rx, txt0): no reply, no updateTXTimestamp; models drop earlier
+  (4, "updateTXTimestamp(clientID, rxt, &txt0)"),  -- ListenerTx.stepEv | .unsent: u := updateTX hr.st cl hr.rxt hr.txt (F21 repair; the value recorded is handed back: entry removed, C06_tx_unsent_dropped)
+  (4, "continue"),  -- ListenerTx.stepEv | .unsent (no cookie could be encrypted): recorded, nothing sent, exchange removed; old code: codeUnsentOld (F21)
   (3, "ntsresp := nts.NewResponsePacket(cookies, serverCookie.S2C, ntsreq.UniqueID.ID)"),  -- Nts.serverReplyG: pkt <- newResponsePacketG fixed fresh sc.x d.uid (sc.x = S2C; .panic .index on an empty list)
   (3, "nts.EncodePacket(&buf, &ntsresp)"),  -- Nts.serverReplyG: encodePacketG fixed A hdr pkt (draw16 rnd').1 (pack errors panic: errToPanic); c10 op srv.reply
   (2, "n, err = conn.WriteToUDPAddrPort(buf, srcAddr)"),  -- ListenerTx.sendRead: s1 := s.send kb (LSock.send: kernel numbers the datagram); pin C06_pin_txPostSend: 1 site
   (2, "if err != nil || n != len(buf)"),  -- pin C06_pin_txPostSend (x_c06tx.go): send followed by its err != nil check; the failure is no model input (row 76)
-  (3, "continue"),  -- UNMODELLED: write failed after handleRequest recorded (rx, txt0): no Ev for it; txid kept though kernel may count
+  (3, "updateTXTimestamp(clientID, rxt, &txt0)"),  -- ListenerTx.stepEv | .unsent: u := updateTX hr.st cl hr.rxt hr.txt (F21 repair; the value recorded is handed back: entry removed, C06_tx_unsent_dropped)
+  (3, "continue"),  -- ListenerTx.stepEv | .unsent (failed / short write): socket untouched (kernel assumed not to count it), exchange removed; old: codeUnsentOld
   (2, "txt1, id, err := udp.ReadTXTimestamp(conn)"),  -- ListenerTx.reads: first call (kernelRead; ListenerTx.readTX, harness c06tx op udp.rtx); pin C06_pin_txPostSend
   (2, "for err == nil && int32(id-txid) < 0"),  -- ListenerTx.reads: if fixed && decide (s.id < txid) (F20 repair; Nat instead of the int32 wrap-around comparison)
   (3, "txt1, id, err = udp.ReadTXTimestamp(conn)"),  -- ListenerTx.reads: recursive call, nreads + 1 (Props C06Tx.C09_reads_bounded)
@@ -444,7 +446,8 @@ def Server.runSCIONServer : List Row := [
   (3, "scionLayer.RawDstAddr, scionLayer.RawSrcAddr = scionLayer.RawSrcAddr, scionLayer.RawDstAddr"),  -- ScionSrv.mkReply: srcAddr := p.dstAddr, dstAddr := p.srcAddr
   (3, "scionLayer.Path, err = scionLayer.Path.Reverse()"),  -- ScionSrv.Pkt.rev: oracle Path.Reverse()
   (3, "if err != nil"),  -- ScionSrv.handleG (udp): match p.rev | none => if fixed then .drop "reverse" (old: panic, F4c)
-  (4, "continue"),  -- UNMODELLED: drop AFTER handleRequest: store already holds (rx, txt0) for clientID, no reply sent, updateTXTimestamp skipped
+  (4, "updateTXTimestamp(clientID, rxt, &txt0)"),  -- ListenerTx.stepEv | .unsent: u := updateTX hr.st cl hr.rxt hr.txt (F21 repair; the value recorded is handed back: entry removed, C06_tx_unsent_dropped)
+  (4, "continue"),  -- ListenerTx.stepEv | .unsent (path not reversible; c06tx event r): recorded, nothing sent, exchange removed; old: codeUnsentOld, C06_old_code_unsent_exchange_served_counterexample
   (3, "scionLayer.PathType = scionLayer.Path.Type()"),  -- ScionSrv.mkReply: pathType := rt (fixed)
   (3, "scionLayer.NextHdr = slayers.L4UDP"),  -- ScionSrv.ntpReply: l4 := .udp
   (3, "udpLayer.DstPort, udpLayer.SrcPort = udpLayer.SrcPort, udpLayer.DstPort"),  -- ScionSrv.ntpReply: srcPort := p.dstPort, dstPort := p.srcPort (Props C13_reply_udp)
@@ -461,7 +464,8 @@ def Server.runSCIONServer : List Row := [
   (5, "cookies = append(cookies, cookie)"),  -- Nts.freshCookies: ecEncode ec :: cs
   (5, "addedCookie = true"),  -- Nts.serverReplyG: fresh non-empty
   (4, "if !addedCookie"),  -- Nts.serverReplyG: if fresh.isEmpty then .err .noCookies; ServerReply ntsOk includes 'one fresh cookie'
-  (5, "continue"),  -- UNMODELLED: drop AFTER handleRequest (no fresh cookie sealed): store already mutated, updateTXTimestamp skipped
+  (5, "updateTXTimestamp(clientID, rxt, &txt0)"),  -- ListenerTx.stepEv | .unsent: u := updateTX hr.st cl hr.rxt hr.txt (F21 repair; the value recorded is handed back: entry removed, C06_tx_unsent_dropped)
+  (5, "continue"),  -- ListenerTx.stepEv | .unsent (no cookie could be encrypted): exchange removed; old: codeUnsentOld
   (4, "ntsresp := nts.NewResponsePacket(cookies, serverCookie.S2C, ntsreq.UniqueID.ID)"),  -- Nts.newResponsePacketG fixed fresh sc.x d.uid (S2C key = sc.x)
   (4, "nts.EncodePacket(&udpLayer.Payload, &ntsresp)"),  -- Nts.encodePacketG fixed A hdr pkt nonce
   (3, "payload := gopacket.Payload(udpLayer.Payload)"),  -- ScionSrv.RPayload.ntpResponse (payload of the reply)
@@ -495,7 +499,8 @@ def Server.runSCIONServer : List Row := [
   (3, "buffer.PushLayer(scionLayer.LayerType())"),  -- env: gopacket layer bookkeeping
   (3, "n, err = conn.WriteToUDPAddrPort(buffer.Bytes(), lastHop)"),  -- ListenerTx.LSock.send in sendRead (stepEv | .ntp); ScionSrv.mkReply: nextHop := p.lastHop; pin C06_pin_txPostSend site 3
   (3, "if err != nil || n != len(buffer.Bytes())"),  -- ListenerTx: no Ev for a failed write (stepEv | .ntp always sends); assumed not counted by the kernel (notes/C06Tx)
-  (4, "continue"),  -- UNMODELLED: failed write AFTER handleRequest: continue skips txid bookkeeping and updateTXTimestamp, store holds (rx, txt0)
+  (4, "updateTXTimestamp(clientID, rxt, &txt0)"),  -- ListenerTx.stepEv | .unsent: u := updateTX hr.st cl hr.rxt hr.txt (F21 repair; the value recorded is handed back: entry removed, C06_tx_unsent_dropped)
+  (4, "continue"),  -- ListenerTx.stepEv | .unsent (failed / short write): txid and socket untouched, exchange removed; old: codeUnsentOld
   (3, "txt1, id, err := udp.ReadTXTimestamp(conn)"),  -- ListenerTx.reads: first ReadTXTimestamp (readTX); pin C06_pin_txPostSend srcPostSendNtp
   (3, "for err == nil && int32(id-txid) < 0"),  -- ListenerTx.reads: fixed && s.id < txid
   (4, "txt1, id, err = udp.ReadTXTimestamp(conn)"),  -- ListenerTx.reads: recursive call (txt1 of the last read is kept)
